@@ -5,7 +5,8 @@ Then run the checks against the change and store everything under /verif/seeded/
 import json, os, re, shutil, subprocess, sys
 pid = sys.argv[1]
 extra_props = sys.argv[2:]
-SRC = f"/tmp/seed/{pid}"
+SRC = os.path.join(os.environ.get("SEED_SRC", "/tmp/seed"), pid)
+OFF = int(os.environ.get("SEED_OFFSET", "0"))
 WT = os.environ.get("SEEDEVAL_WT", "/tmp/seedeval/repo")
 V = os.path.dirname(os.path.dirname(os.path.abspath(__file__)))
 env = dict(os.environ, GOFLAGS="-mod=mod", GOPROXY="off")
@@ -18,9 +19,9 @@ def sh(cmd, cwd=None, timeout=900):
 def clean():
     sh("git checkout -q -- . && git clean -fdq", WT)
 meta = json.load(open(os.path.join(SRC, "meta.json")))
-for i, e in enumerate(meta, 1):
+for i, e in enumerate(meta, 1 + OFF):
     patch = os.path.join(SRC, e["patch"])
-    demo = e["demo_cmd"].replace(f"/tmp/seed/{pid}/repo", WT).replace("../demo", f"{SRC}/demo")
+    demo = e["demo_cmd"].replace(f"{SRC}/repo", WT).replace("../demo", f"{SRC}/demo")
     demo = re.sub(r"git apply [^&;]*(&&|;)", "", demo)   # the tool applies / removes the change itself
     clean()
     rc0, out0 = sh(demo, WT)
